@@ -231,6 +231,13 @@ def obligations(ctx, cfg):
     term = [RequestTerminates(ctx, 'delete', none), RequestTerminates(ctx, 'pull_messages', mk_u16),
             RequestTerminates(ctx, 'acknowledge_messages', mk_ids), RequestTerminates(ctx, 'modify_ack_deadlines', mk_mods),
             RequestTerminates(ctx, 'get_info', none)]
+    if cfg['tier'] == 'thorough':
+        for meth, mkargs in (('delete', none), ('pull_messages', mk_u16)):
+            t = RequestTerminates(ctx, meth, mkargs)
+            t.all_select_orders = True
+            t.id += '-all-select-orders'
+            t.bounds = dict(t.bounds, **{'select! start index': 'all'})
+            term.append(t)
     from props.races import TopicRequestTerminates
     from models_sync import ArcTok, Opaque
     from props.common import sym_name
